@@ -64,6 +64,12 @@ func runOne(fn func()) (status, detail string) {
 	defer func() {
 		if r := recover(); r != nil {
 			if s, ok := r.(SkipPath); ok {
+				// an assertion that failed before the path was abandoned stays a failure
+				// (under the engine the path ends at the first violated assertion)
+				if len(Failures) > 0 {
+					status, detail = "fail", strings.Join(Failures, "; ")
+					return
+				}
 				status, detail = "skip", s.Why
 				return
 			}
